@@ -346,6 +346,13 @@ def check_object_state(facts, run, eff, cg, entries):
                     if flds:
                         written.setdefault((flds[-1]["adt"], flds[-1]["name"]), []).append((p, "assign", where(st.get("span"))))
             t = b["term"]
+            if t["k"] == "call":
+                # a call result stored straight into a field of the object
+                pr = t["dest"]["proj"]
+                if pr and pr[0]["k"] == "deref":
+                    flds = [e for e in pr if e["k"] == "field" and e.get("adt") in objs]
+                    if flds:
+                        written.setdefault((flds[-1]["adt"], flds[-1]["name"]), []).append((p, "call-result", where(t.get("span"))))
             if t["k"] == "call" and t["func"].get("k") == "fn":
                 n = strip_generics(t["func"].get("resolved") or t["func"]["path"])
                 if any(n.endswith(s_) for s_ in ("::deref", "::len", "::iter", "::index", "::is_empty", "::as_slice", "::clone", "::get", "::first", "::last", "::contains")):
@@ -389,8 +396,8 @@ def check_object_state(facts, run, eff, cg, entries):
     for (adt, fld), ws in sorted(post.items()):
         fty = [fl["ty"] for v in facts.adts[adt]["variants"] for fl in v["fields"] if fl["name"] == fld][0]
         writers = sorted({w[0] for w in ws})
-        if any(o.split("::", 1)[1] == fty or o.split("::")[-1] == fty.split("::")[-1] for o in objs):
-            continue   # a nested state object handed to its own methods: its fields are censused themselves
+        if any(o.split("::", 1)[1] == fty or o.split("::")[-1] == fty.split("::")[-1] for o in objs) and not any(w[1] in ("assign", "call-result") for w in ws):
+            continue   # a nested state object handed to its own methods: its fields are censused themselves (a whole-field overwrite is judged here)
         if fty.startswith("std::vec::Vec<std::option::Option<"):
             if len(writers) != 1:
                 run.bad("C13.P4", "memo-writers:%s.%s" % (adt.split("::")[-1], fld), "memo table is written by several functions: %s" % writers)
@@ -449,6 +456,10 @@ def benign_counter(facts, adt, fld, writers):
                 if st["k"] != "assign":
                     continue
                 rv = st["rv"]
+                if rv["k"] in ("ref", "rawptr") and any(e["k"] == "field" and e.get("name") == fld and e.get("adt") == adt for e in rv["place"]["proj"]) \
+                        and not (st["place"]["proj"] == [] and _borrow_only_written_back(f, st["place"]["local"])):
+                    # the field is borrowed: whatever receives the reference can read it (a comparison, a clone, a match)
+                    return False, "field %s is borrowed in %s: its value can influence results" % (fld, p)
                 reads = _reads_field(rv, adt, fld)
                 if not reads:
                     continue
@@ -486,6 +497,33 @@ def benign_counter(facts, adt, fld, writers):
             if t["k"] == "assert" and any(_reads_field_op(o, adt, fld) for o in t["ops"]):
                 continue
     return True, "%s.%s is only incremented and compared with a constant to guard a diagnostic print (writers: %s)" % (adt.split("::")[-1], fld, [w.split("::")[-1] for w in writers])
+
+
+def _borrow_only_written_back(f, local):
+    """the borrow held in `local` is used only as the destination of stores (`*r = v`), never read or passed on"""
+    for b in f["blocks"]:
+        for st in b["stmts"]:
+            if st["k"] != "assign":
+                continue
+            if _mentions_local(st["rv"], local):
+                return False
+            pl = st["place"]
+            if pl["local"] == local and not (pl["proj"] and pl["proj"][0]["k"] == "deref"):
+                continue
+        t = b["term"]
+        if _mentions_local(t, local):
+            return False
+    return True
+
+
+def _mentions_local(o, local):
+    if isinstance(o, dict):
+        if "local" in o and "proj" in o and o["local"] == local:
+            return True
+        return any(_mentions_local(v, local) for k, v in o.items() if k not in ("dest",) or True)
+    if isinstance(o, list):
+        return any(_mentions_local(v, local) for v in o)
+    return False
 
 
 def _reads_field_op(o, adt, fld):
